@@ -673,9 +673,11 @@ def record_machine(sim, col, prefix=""):
     if not sim.ops:
         labels.append("machine_empty")
     nontrivial = s["writes"] >= 4 and kinds >= 2 and bool(s["dangling_writes"] or s["oor"] or seeks or s["zero_past_end"])
-    want_sample = nontrivial and s["blocks"] and len(sim.ops) <= 14 and col.extra.get("_machine_samples", 0) < 1
+    want_sample = nontrivial and s["blocks"] and len(sim.ops) <= 14 and not getattr(col, "_c20_machine_sampled", False)
     if want_sample:
-        col.extra["_machine_samples"] = 1
+        col._c20_machine_sampled = True
+    if nontrivial:
+        col.count("nontrivial_machines_not_deduplicated")
     col.case(key=("machine", repr(sim.ops)), nontrivial=nontrivial, labels=labels)
     if want_sample:
         col.sample({"part": "machine", "ops": sim.ops, "bytes_written": sim.f.getvalue().hex()})
@@ -1126,6 +1128,7 @@ def run_exh(ctx, k, n, mods):
                                             "program": [list(o) for o in PROGRAMS[pi]] + ["end"] + [list(o) for o in POST[pi % 2]],
                                             "model_result": res_m})
             if interesting:
+                col.count("nontrivial_exh_file_blocklength_pairs")
                 col.nontrivial.add((1 << 62) | (len(data) << 40) | (int.from_bytes(data, "big") << 8) | (blen + 2))
     col.evaluations += evals
     col.count("exh_combinations", evals)
